@@ -320,6 +320,12 @@ def run(ck):
     for i in range(30 if not ck.thorough() else 600):
         if ck.mine(i):
             ends_with_children(ck, [tab], base + 777 + i, i)
+    # a gateway with two local addresses and four connections: a request between a pair of addresses that has no connection leaves the table empty (judged in C02's
+    # busy-gateway family, which is run here for the cases that concern the table)
+    from vf.checks import c02 as c02_
+    for i in range(8 if not ck.thorough() else 80):
+        if ck.mine(i + 1):
+            c02_.busy_gateway_case(ck, base + 999 + i, 10 + 12 * (i % 4), ck.rng('busy-gw', i))
     for i in range(40 if not ck.thorough() else 800):
         if ck.mine(i + 2):
             crossing_with_queued_notices(ck, [tab, exp], base + 888, i)
@@ -809,6 +815,7 @@ def run(ck):
 
 def verdict(ck):
     ck.floor('EXPIRE notices queued while a request was in flight and the peer\'s own request crossed it', ck.counters['crossing_queued.notices_queued'], 25)
+    ck.floor('requests to a multi-homed gateway between a pair of addresses that has no connection', ck.counters['busy_gateway.pair_without_a_connection'] + ck.counters['busy_gateway.not_answered'], 6)
     ck.floor('IKE_SAs with several CHILD_SAs that ended, table and kernel empty afterwards', ck.counters['ends.table_and_kernel_empty'], 24)
     ck.floor('IKE_SAs ended by an authentic message with an odd SPI size, kernel SAs compared', ck.counters['odd_spi.sad_equals_tracked'], 24)
     ck.floor('status queries between the single steps of histories that start before the handshake', ck.counters['status.queries_between_single_steps'], 400)
